@@ -97,6 +97,9 @@ pub fn check(c: &OntCase, stats: &mut Stats) -> CheckResult {
     if n.long_lines {
         stats.label("lines-longer-than-8KiB");
     }
+    if n.tag_order != 0 {
+        stats.label("id-tag-not-first-in-stanza");
+    }
     if expected.terms.iter().any(|t| t.replacement == Some(0)) {
         stats.label("replacement-id-0");
     }
